@@ -163,6 +163,17 @@ ITER_MENU = [("0", 0), ("1", 1), ("255", 255), ("256", 256), ("65535", 65535), (
              ("sfullwidth45", "\uff14\uff15"), ("sarabic45", "\u0664\u0665"), ("s12nl", "12\n")]
 
 
+def same_content(a, b):
+    """two states of an authorization file say the same (byte-equal, or equal as JSON
+    documents: a refusing tool may re-save what it loaded)"""
+    if a == b:
+        return True
+    try:
+        return json.loads(a) == json.loads(b)
+    except Exception:   # noqa
+        return False
+
+
 class Args(dict):
     __getattr__ = dict.get
 
@@ -956,7 +967,7 @@ class C17(Check):
                        saved == before))
         if a.pre and (ri[0] == "refuse" or not a.out):
             # a refused or print-only call leaves the earlier file alone
-            if saved != before:
+            if not same_content(saved, before):
                 self.viol(vs, "refusal-changed-state", "signapp-message:existing-file",
                           "signapp_message", args, {"file": saved}, {"file": before})
             if ri[0] == "refuse":
@@ -1186,7 +1197,7 @@ class C17(Check):
                 self.viol(vs, "saved-content", "signapp-manual", "signapp_manual", args,
                           {"exit": r.code, "file": got}, {"exit": 0, "file": want})
         else:
-            if r.code == 0 or after != before:
+            if r.code == 0 or not same_content(after, before):
                 self.viol(vs, "malformed-accepted", "signapp-manual:signature-%s" % a.skind,
                           "signapp_manual", args, {"exit": r.code, "file": after},
                           {"exit": "nonzero", "file": "unchanged"})
@@ -1267,7 +1278,7 @@ class C17(Check):
                           {"exit": r.code, "file": after}, {"file": pub.hex()})
             return
         if mode != "ok":
-            if r.code == 0 or after != before:
+            if r.code == 0 or not same_content(after, before):
                 self.viol(vs, "bad-device-signature-accepted" if mode.startswith("wrong") and
                           mode != "wrongapp" else "device-error-ignored", "signapp-eth:%s" % mode,
                           "signapp_eth", args, {"exit": r.code, "file": after},
